@@ -91,6 +91,23 @@ func HarnessC11Reduce() {
 		}
 		firsts[i] = f
 	}
+	// every distinct grouping value has a row of its own: two values are never
+	// merged into one group (the recorded defect only ever splits a group)
+	verif.Class("")
+	verif.Assert(t.NumRows() >= verif.Count(firsts...), "C11/reduce/no-two-groups-merged")
+	for i := range gs {
+		has := false
+		for k := 0; k < t.NumRows(); k++ {
+			r, _ := t.Row(k)
+			if g, ok := cellGval(r["?g"]); ok {
+				has = verif.Or(has, g.eq(gs[i]))
+			}
+		}
+		verif.Assert(has, "C11/reduce/every-group-value-has-a-row")
+	}
+	if mixed {
+		verif.Class("mixed-kinds-in-grouping-column")
+	}
 	verif.Assert(t.NumRows() == verif.Count(firsts...), "C11/reduce/one-row-per-group")
 	for k := 0; k < t.NumRows(); k++ {
 		r, _ := t.Row(k)
